@@ -41,6 +41,7 @@ func (s *sim) genBoot() Action {
 	a.FDir = r.Chance(1, 3)
 	a.Tmpl = r.Chance(1, 2)
 	a.Port443 = r.Chance(1, 5)
+	a.IPv6 = r.Chance(1, 3)
 	switch s.cfg.Profile {
 	case "C12":
 		a.OneShell = r.Chance(4, 5)
